@@ -39,6 +39,8 @@ def table_oracle(lines):
         elif k == "ut":
             i = int(p[1])
             ok = (p[2] == "ok" and i < 32 and p[3] == str(i)) or (p[2] == "err" and i >= 32)
+        elif k in ("lvlx", "profx"):
+            ok = False
         elif k == "uteq":
             ok = p[3] == ("1" if p[1] == p[2] else "0")
         elif k == "prof":
